@@ -576,6 +576,11 @@ def run(ck):
     check_b(ck, repo)
     check_c(ck, repo)
     check_d(ck, repo)
+    from .sem import share_clauses
+
+    share_clauses(ck, "c02", {
+        "C02.d": ("C13.e", "the inner regressor / classifier and the transformer trained by fit are clones: nobody else's later fit changes what the target predictor answers"),
+    }, keep=lambda o: o.file.endswith(("target_predictors.py", "sklearn_transform_inv.py", "sklearn_transform_inv_fct.py")))
     ck.require_count("C13.d", 1, "classes_ order vs probability columns")
     ck.require_count("C13.a", 10, "six entries x (involution, name/function, inverse class)")
     ck.require_count("C13.b", 8, "fit, get_fct_inv, transform of both transformers")
